@@ -7,7 +7,8 @@ use serde_json::{json, Value};
 use sta_rs::{share_recover, AssociatedData, Message, MessageGenerator, Share, SingleMeasurement};
 use std::collections::HashMap;
 
-const THR_MAPS: [[u32; 3]; 5] = [
+const THR_MAPS: [[u32; 3]; 6] = [
+  [0, 1, 2],
   [1, 2, 3],
   [2, 3, 258],
   [256, 1, 65536],
@@ -148,6 +149,46 @@ pub fn replay(a: &Args) -> Report {
       }
       rep.traces += 1;
       rep.sample(json!({"valuation": val.name, "threshold_map": tm, "triples": lines.len(), "clients_per_triple": if big {0} else {k}}));
+    }
+    // the threshold axis on its own: every pair of thresholds — 0, 1, the small ones, every power
+    // of two and its neighbours (pairs differing in one bit), the integer-width boundaries — gives
+    // different randomness; tags and keys too where dealing a polynomial of that degree is feasible
+    let (m, e) = (val.img[0].clone(), val.img[1].clone());
+    let mut thrs: Vec<u32> = (0..=20).collect();
+    for k in 0..32u32 {
+      thrs.extend([1u32 << k, (1u32 << k).wrapping_add(1), (1u32 << k).wrapping_sub(1), (1u32 << k) | 1, (1u32 << k) | 2]);
+    }
+    thrs.extend([u32::MAX, u32::MAX - 1, 255, 257, 65535, 65537, 0x0100_0001, 0x0001_0100]);
+    thrs.sort();
+    thrs.dedup();
+    let mut seen_rnd: HashMap<Vec<u8>, u32> = HashMap::new();
+    let mut seen_tag: HashMap<Vec<u8>, u32> = HashMap::new();
+    let mut seen_key: HashMap<Vec<u8>, u32> = HashMap::new();
+    for t in thrs {
+      let mg = MessageGenerator::new(SingleMeasurement::new(&m), t, &e);
+      let mut rnd = [0u8; 32];
+      if !matches!(guard(|| mg.sample_local_randomness(&mut rnd)), Guard::Done(())) {
+        continue;
+      }
+      rep.evaluations += 1;
+      let ctx = json!({"valuation": val.name, "threshold": t});
+      if let Some(o) = seen_rnd.insert(rnd.to_vec(), t) {
+        rep.violation("C04", "sample_local_randomness", "different-thresholds-same-randomness",
+          format!("thresholds {o} and {t} derive the same randomness"), ctx.clone());
+      }
+      if t <= 40 {
+        if let Guard::Done(Ok(w)) = guard(|| mg.share_with_local_randomness()) {
+          if let Some(o) = seen_tag.insert(w.tag.to_vec(), t) {
+            rep.violation("C04", "share_with_local_randomness", "different-thresholds-same-tag",
+              format!("thresholds {o} and {t} derive the same tag"), ctx.clone());
+          }
+          if let Some(o) = seen_key.insert(w.key.to_vec(), t) {
+            rep.violation("C04", "share_with_local_randomness", "different-thresholds-same-key",
+              format!("thresholds {o} and {t} derive the same key"), ctx.clone());
+          }
+        }
+      }
+      rep.nontrivial(format!("thr-axis:{vi}:{t}"));
     }
   }
   rep
